@@ -23,7 +23,7 @@ type readerJob struct {
 
 func TestConcurrentReaders(t *testing.T) {
 	base := vk.Dir()
-	vk.Check(t, 900, 12000, func(rt *rapid.T, c *vk.Case) {
+	vk.Check(t, 900, 10000, func(rt *rapid.T, c *vk.Case) {
 		cfg := genCfg(rt)
 		cfg.MaxSnaps = 100
 		cfg.Cache = rapid.SampledFrom([]int{1, 70, 300, 2000}).Draw(rt, "smallCache") // snapshots must go back to disk
